@@ -24,6 +24,13 @@ CHECKS = {
             "heads must raise LocalProtocolError with nothing written.",
             "Own decoders are the reference; header-name case on HTTP/1.1 and connection-specific headers are outside the oracle.",
             "3 C03"),
+    "C17": ("exploration",
+            "bounded-exhaustive enumeration (cut subsets x max_bytes sequences) plus Hypothesis sampling; oracle = exact byte stream the peer sent after the head",
+            "101 / CONNECT-2xx hand-over: for d<=6 every subset of cut positions around the head end and every max_bytes sequence over "
+            "{1,2,64} up to length 3; random layer with up to 200 kB leading data, interleaved writes and reads; tunnel proxy CONNECT "
+            "reply head under every single cut.",
+            "Peer echo stands for live data; reads are only issued when the model says bytes are pending.",
+            "3 C17"),
     "C18": ("translation_validation",
             "exhaustive line-by-line re-translation with the repository's own unasync_line + generated sync/async differential",
             "Every line of every _async/_sync file pair is re-translated and compared (exhaustive over the source); generated "
